@@ -235,6 +235,11 @@ func (t *Type) resolve(d *typeDictionary) (errs []error) {
 
 	prefix, name := getPrefix(t.Name)
 	root := RootNode(t)
+	if root == nil && td == nil {
+		// t is not part of a module, e.g., it belongs to a text whose
+		// top-level statement was rejected.
+		return []error{fmt.Errorf("%s: type %s is not part of a module", Source(t), t.Name)}
+	}
 	rootPrefix := root.GetPrefix()
 
 	source := "unknown"
